@@ -44,7 +44,7 @@ fn main() {
         }
         Some("c19child") => c19::child(&args[2], &args[3]),
         Some("parse1") => c17::parse1(&args[2]),
-        Some("selftest") => match interpose::self_test(std::path::Path::new(&args[2])) {
+        Some("selftest") => match interpose::self_test(&explore::work_root()) {
             Ok(()) => {
                 println!("selftest ok");
                 0
